@@ -28,6 +28,17 @@ fn le_byte(v: u128, _w: usize, i: usize) -> u8 {
 }
 
 const G: u8 = 0xA5;
+
+/// forces dispatch through `impl<T: BufMut + ?Sized> BufMut for &mut T` (the deref_forward_bufmut! bodies): with plain
+/// method syntax `(&mut inner).put_x(..)` auto-deref selects the inner type's own impl and the forwarder is never run
+pub struct Fwd<'a, B: BufMut>(pub &'a mut B);
+macro_rules! fwd_methods {
+    ($($m:ident($($a:ident: $t:ty),*)),* $(,)?) => { $( pub fn $m(&mut self, $($a: $t),*) { <B as BufMut>::$m(self.0, $($a),*) } )* };
+}
+impl<'a, B: BufMut> Fwd<'a, B> {
+    pub fn remaining_mut(&self) -> usize { <B as BufMut>::remaining_mut(self.0) }
+    fwd_methods!(__FWD_METHODS__);
+}
 '''
 
 # target -> (setup, put-context).  setup defines: `mem` ([u8; N] guard array or equivalent), `lo`, `cap0` (writable bytes
@@ -67,7 +78,7 @@ def target_code(t, W, put, put2, fixed_cap):
         assert!(mem[guard_i] == G);
     }""" % (fixed_cap, put("w"), put2("w"))
     if t in ("refmut", "boxed"):
-        wrap = "let mut w = &mut inner;" if t == "refmut" else "let mut w: Box<&mut [u8]> = Box::new(inner);"
+        wrap = "let mut w0 = &mut inner; let mut w = Fwd(&mut w0);" if t == "refmut" else "let mut w: Box<&mut [u8]> = Box::new(inner);"
         return """    let mut mem = [G; N];
     let lo = 1usize;
     let cap0 = %s;
@@ -190,6 +201,17 @@ def generate(repo):
     # (deref_forward_bufmut! forwards only part of the trait; the remaining methods run their default bodies on
     # the wrapper, which is still required to be correct and is what the refmut/boxed targets check)
     putters = [m for m in methods if m.startswith("put_") and m not in ("put_slice", "put_bytes")]
+    sigs = []
+    for pm in putters:
+        cc = classify(pm)
+        if cc is None:
+            continue
+        if cc["kind"] == "fixed":
+            sigs.append("%s(n: %s)" % (pm, cc["ty"]))
+        else:
+            sigs.append("%s(n: %s, nbytes: usize)" % (pm, cc["ty"]))
+    global HDR_FILLED
+    HDR_FILLED = HDR.replace("__FWD_METHODS__", ", ".join(sigs))
     groups = {}
     n_h = 0
     for idx, p in enumerate(putters):
@@ -200,7 +222,7 @@ def generate(repo):
         fixed = c["kind"] == "fixed"
         W = c["width"] if fixed else 8
         gname = ("w%d" % (W * 8)) if fixed else "var"
-        out = groups.setdefault(gname, [HDR])
+        out = groups.setdefault(gname, [HDR_FILLED])
         N = W + 4
         unwind = max(W + 3, 5)
         e = c["endian"]
@@ -305,7 +327,7 @@ pub fn %s() {
 }
 """ % (p, name, c["ty"], p))
             n_h += 1
-    out = groups.setdefault("w32", [HDR])
+    out = groups.setdefault("w32", [HDR_FILLED])
     out.append("""// @h props=C11 tier=quick flags=witness group=putters
 #[kani::proof]
 #[kani::unwind(8)]
